@@ -1,14 +1,15 @@
 \* phase 2 leg A thorough (native histograms): grid 0..7, <= 4 samples, three histograms or a stale
-\* marker, counter and gauge series, r1 = 2, r2 in {4, 6}, chunk counts {1,2,3} x {1,2}
+\* marker, counter and gauge series, r1 = 2, r2 = 4, chunk counts {1,2,3} x {1,2}
 SPECIFICATION Spec
 CONSTANTS GridLen = 8
           MaxSamples = 4
           Vecs <- VecsDefault
           WithStale = TRUE
           R1 = 2
-          Mults = {2, 3}
+          Mults = {2}
           Counts1 = {1, 2, 3}
           Counts2 = {1, 2}
+          CaseSamples = 3
 INVARIANTS H36_Exact H36_Done H38_TotalsConserved H38_Ordered H38_LastWindow HCtrGaugeIsLast StepsAgreeWithAlgo
 PROPERTY AlwaysProgress
 CHECK_DEADLOCK TRUE
